@@ -342,7 +342,7 @@ CHECKS["C04"] = {
         {"name": "recreate", "pkg": "internal/state", "pkgname": "state", "entry": "VerifC04Recreate",
          "files": ["zz_verif_c04.go", "zz_verif_c17.go", "zz_verif_fixture.go", "zz_verif_world.go"], "with": ["verifdb"], "gen_stubs": [TX_STUB],
          "extra_overlay": {"internal/response/zz_verif_decode.go": "internal/response/zz_verif_decode.go"},
-         "params": {"quick": grid(k=[3, 4]), "thorough": grid(k=[5, 6])}, "cover": ["name-recreated"]},
+         "params": {"quick": grid(fam=[0], k=[3, 4]) + grid(fam=[1], k=[5]), "thorough": grid(fam=[0], k=[5, 6]) + grid(fam=[1], k=[6, 7])}, "cover": ["name-recreated"]},
         {"name": "history", "pkg": "internal/state", "pkgname": "state", "entry": "VerifC04History",
          "files": ["zz_verif_c04.go", "zz_verif_c17.go", "zz_verif_fixture.go", "zz_verif_world.go"], "with": ["verifdb"], "gen_stubs": [TX_STUB],
          "extra_overlay": {"internal/response/zz_verif_decode.go": "internal/response/zz_verif_decode.go"},
